@@ -498,6 +498,9 @@ class OtfadArt(Art):
         self.see("counter", kb.ctr_init_vector, "attr@export")
 
 
+_IEE_ATTRS: dict = {}
+
+
 class IeeArt(Art):
     CTR_NAMES = ("key1", "key2")
 
@@ -515,8 +518,16 @@ class IeeArt(Art):
         )
 
         v = self.var
-        attrs = IeeKeyBlobAttribute(IeeKeyBlobLockAttributes.UNLOCK, IeeKeyBlobKeyAttributes.from_label(v["keysize"]),
-                                    IeeKeyBlobModeAttributes.from_label(v["mode"]))
+        # half of the key blobs get an attribute object that served earlier key blobs of this process: lock, key size and
+        # mode are settings a caller makes once and hands to every key blob
+        akey = (v["keysize"], v["mode"])
+        attrs = _IEE_ATTRS.get(akey) if self.rng.random() < 0.5 else None
+        if attrs is None:
+            attrs = IeeKeyBlobAttribute(IeeKeyBlobLockAttributes.UNLOCK, IeeKeyBlobKeyAttributes.from_label(v["keysize"]),
+                                        IeeKeyBlobModeAttributes.from_label(v["mode"]))
+            _IEE_ATTRS[akey] = attrs
+        else:
+            self.notes.append("shared-attribute-object")
         self.sizes = {"key1": attrs.key1_size, "key2": attrs.key2_size}
         sup = {n: rb(self.rng, self.sizes[n]) for n in v["supply"]}
         self.invented = {"key1", "key2"} - set(sup)
